@@ -284,6 +284,11 @@ func htmlTokens(s string) ([]htmlTok, error) {
 	return toks, nil
 }
 
+// pendingKnown: classifications of recorded findings made by oracles that have no return value for them;
+// the case loop collects and clears it
+var pendingKnown []string
+
+// nulNorm: html/template writes U+FFFD for a NUL (recorded finding D23): the one way a text may fail to decode to itself
 func nulNorm(s string) string { return strings.ReplaceAll(s, "\x00", "�") }
 
 func oracleHTML(g *Gen, t, w, res string) (viol []string) {
@@ -403,8 +408,11 @@ func oracleHTML(g *Gen, t, w, res string) (viol []string) {
 				if j < 0 {
 					return []string{"unterminated attribute value"}
 				}
-				if html.UnescapeString(rest[:j]) != nulNorm(a[1]) {
-					return []string{fmt.Sprintf("attribute %s decodes to %q, supplied %q", a[0], html.UnescapeString(rest[:j]), a[1])}
+				if got := html.UnescapeString(rest[:j]); got != a[1] {
+					if got != nulNorm(a[1]) {
+						return []string{fmt.Sprintf("attribute %s decodes to %q, supplied %q", a[0], got, a[1])}
+					}
+					pendingKnown = append(pendingKnown, "d23-html-nul-becomes-fffd")
 				}
 				rest = rest[j+1:]
 			}
@@ -415,8 +423,11 @@ func oracleHTML(g *Gen, t, w, res string) (viol []string) {
 			if tk.tag {
 				return []string{fmt.Sprintf("expected text %q, found <%s>", e.text, tk.body)}
 			}
-			if html.UnescapeString(tk.body) != nulNorm(e.text) {
-				return []string{fmt.Sprintf("text decodes to %q, supplied %q", html.UnescapeString(tk.body), e.text)}
+			if got := html.UnescapeString(tk.body); got != e.text {
+				if got != nulNorm(e.text) {
+					return []string{fmt.Sprintf("text decodes to %q, supplied %q", got, e.text)}
+				}
+				pendingKnown = append(pendingKnown, "d23-html-nul-becomes-fffd")
 			}
 			if strings.ContainsAny(tk.body, "\"'") {
 				return []string{fmt.Sprintf("raw quote in text %q", tk.body)}
